@@ -1,4 +1,1215 @@
-//! C18: harness domain (stub).
+//! C18: local processes — ordered exactly-once delivery, exit notices, name lifecycle.
+//!
+//! * `c18run`  — the real `Node` (started against the scripted EPMD, H1) with instrumented `Process` implementations;
+//!   1–3 client tasks issue seeded call sequences, the process tasks are delayed at the H3 points
+//!   `proc:before_exit_signals`, `proc:between_links_and_monitors`, `proc:before_registry_remove` and in front of every handler
+//!   call. Everything runs on one current-thread runtime: client tasks are `unconstrained` and every process task yields before
+//!   each handler call, so no task is ever preempted inside a call — the recorded history is a sequence of atomic blocks
+//!   which the Lean driver replays through the small-step model (T line: trace inclusion) and which the Spec oracle judges
+//!   (P line).
+//! * `c18reg`  — `ProcessRegistry` driven directly.
+//! * `c18gs` / `c18ge` — `GenServerProcess` / `GenEventManager` `handle_message` on generated `$gen_call`/`$gen_cast`/… terms.
+//! * known findings replayed on every run: a link / monitor accepted by a process that has already collected its
+//!   links / monitors is never honoured (`kf-c18-late-link`, `kf-c18-late-monitor`).
+use crate::canon::{pid_text, term_text};
+use crate::peer::FakeEpmd;
+use crate::rng::Rng;
 use crate::Ctx;
+use edp_node::gen_event::{CallResult as GeCallResult, EventResult, GenEventHandler, GenEventManager};
+use edp_node::{CallResult, Error, GenServer, GenServerProcess, Mailbox, Message, Node, Process, ProcessHandle, ProcessRegistry};
+use erltf::types::{Atom, ExternalPid, ExternalReference};
+use erltf::OwnedTerm;
+use std::collections::HashMap;
+use std::future::Future;
+use std::pin::Pin;
+use std::sync::{Arc, Mutex};
 
-pub fn run(_ctx: &mut Ctx) {}
+// ------------------------------------------------------------------------------------------------ history
+
+#[derive(Clone, Debug, PartialEq)]
+enum Entry {
+    Call { t: usize, op: String, res: String },
+    H { p: usize, msg: String },
+    Tm { p: usize },
+    X { p: usize, k: u32 },
+    D { p: usize },
+}
+
+struct Trace {
+    log: Vec<Entry>,
+    pids: Vec<ExternalPid>,              // slot -> pid, in spawn order
+    reserved: usize,                     // slots handed to constructed processes
+    refs: Vec<ExternalReference>,        // reference index -> reference, in creation order
+    tasks: HashMap<tokio::task::Id, usize>,
+    next_msg: u64,
+    hook_rng: Rng,
+    hook_max: [u32; 3],                  // yields at the three points: 0..=max (seeded)
+    hook_fixed: Option<[u32; 3]>,
+    node_name: Atom,
+    creation: u32,
+    unknown_task_hooks: u32,
+}
+
+type Shared = Arc<Mutex<Trace>>;
+
+static CURRENT: Mutex<Option<Shared>> = Mutex::new(None);
+
+fn slot_of(tr: &Trace, pid: &ExternalPid) -> String {
+    if let Some(i) = tr.pids.iter().position(|p| p == pid) {
+        return i.to_string();
+    }
+    // fabricated pids of processes that never existed: id 5000 + k  <->  model pid 100 + k
+    if pid.node == tr.node_name && pid.id >= 5000 {
+        return (100 + pid.id - 5000).to_string();
+    }
+    format!("?{}", pid_text(pid))
+}
+
+fn ref_of(tr: &Trace, r: &ExternalReference) -> String {
+    match tr.refs.iter().position(|x| x == r) {
+        Some(i) => i.to_string(),
+        None => "?".to_string(),
+    }
+}
+
+fn ghost_pid(tr: &Trace, k: u32) -> ExternalPid {
+    ExternalPid::new(tr.node_name.clone(), 5000 + k, 0, tr.creation)
+}
+
+fn ghost_ref(tr: &Trace, k: u32) -> ExternalReference {
+    ExternalReference::new(tr.node_name.clone(), tr.creation, vec![900_000 + k, 0, 0])
+}
+
+// ------------------------------------------------------------------------------------------------ instrumented process
+
+struct Inst {
+    slot: usize,
+    trap: bool,
+    pre_yield: u32,
+    sh: Shared,
+}
+
+fn msg_text(tr: &Trace, msg: &Message) -> (String, Option<bool>) {
+    match msg {
+        Message::Regular { from, body } => {
+            // body = {id, ok | crash}
+            if let OwnedTerm::Tuple(v) = body
+                && v.len() == 2
+                && let OwnedTerm::Integer(id) = &v[0]
+                && let OwnedTerm::Atom(a) = &v[1]
+                && from.is_none()
+            {
+                (format!("r{}", id), Some(a.as_str() == "crash"))
+            } else {
+                (format!("r?{}", term_text(body)), Some(false))
+            }
+        }
+        Message::Exit { from, reason } => {
+            let ok = matches!(reason, OwnedTerm::Atom(a) if a.as_str() == "error");
+            (format!("e{}{}", slot_of(tr, from), if ok { String::new() } else { format!("!{}", term_text(reason)) }), None)
+        }
+        Message::MonitorExit { monitored, reference, reason } => {
+            let ok = matches!(reason, OwnedTerm::Atom(a) if a.as_str() == "error");
+            (
+                format!("m{}.{}{}", slot_of(tr, monitored), ref_of(tr, reference), if ok { String::new() } else { format!("!{}", term_text(reason)) }),
+                Some(false),
+            )
+        }
+        other => (format!("?{:?}", other).replace(' ', ""), Some(false)),
+    }
+}
+
+impl Process for Inst {
+    async fn handle_message(&mut self, msg: Message) -> edp_node::Result<()> {
+        // a fresh poll (and a fresh cooperative budget) for every message
+        for _ in 0..self.pre_yield.max(1) {
+            tokio::task::yield_now().await;
+        }
+        let mut tr = self.sh.lock().unwrap();
+        tr.tasks.insert(tokio::task::id(), self.slot);
+        let (text, fail) = msg_text(&tr, &msg);
+        let fail = fail.unwrap_or(!self.trap);
+        tr.log.push(Entry::H { p: self.slot, msg: text });
+        if fail { Err(Error::InvalidMessage("crash".into())) } else { Ok(()) }
+    }
+
+    async fn terminate(&mut self) {
+        let mut tr = self.sh.lock().unwrap();
+        tr.tasks.insert(tokio::task::id(), self.slot);
+        tr.log.push(Entry::Tm { p: self.slot });
+    }
+}
+
+impl Drop for Inst {
+    fn drop(&mut self) {
+        if let Ok(mut tr) = self.sh.lock() {
+            tr.log.push(Entry::D { p: self.slot });
+        }
+    }
+}
+
+fn install_hook() {
+    edp_client::verif_hooks::set_yield_hook(Some(Box::new(|name: &str| -> u32 {
+        let k = match name {
+            "proc:before_exit_signals" => 1,
+            "proc:between_links_and_monitors" => 2,
+            "proc:before_registry_remove" => 3,
+            _ => return 0,
+        };
+        let cur = CURRENT.lock().unwrap().clone();
+        let Some(sh) = cur else { return 0 };
+        let mut tr = sh.lock().unwrap();
+        let slot = tokio::task::try_id().and_then(|id| tr.tasks.get(&id).copied());
+        match slot {
+            Some(p) => tr.log.push(Entry::X { p, k }),
+            None => {
+                tr.unknown_task_hooks += 1;
+                return 0;
+            }
+        }
+        match tr.hook_fixed {
+            Some(f) => f[(k - 1) as usize],
+            None => {
+                let m = tr.hook_max[(k - 1) as usize];
+                tr.hook_rng.below(m as u64 + 1) as u32
+            }
+        }
+    })));
+}
+
+// ------------------------------------------------------------------------------------------------ scripts
+
+/// which process a call refers to, resolved when the call is made
+#[derive(Clone, Debug)]
+enum PidSel {
+    Pick(u64),     // one of the processes spawned so far (pick mod count); a ghost when none exists yet
+    Slot(usize),   // exactly this slot (directed scenarios)
+    Ghost(u32),    // a pid that was never spawned
+}
+
+#[derive(Clone, Debug)]
+enum RefSel {
+    Pick(u64),
+    Idx(usize),
+    Ghost(u32),
+}
+
+#[derive(Clone, Debug)]
+enum OpSpec {
+    Spawn { trap: bool, pre_yield: u32 },
+    Register(u32, PidSel),
+    Unregister(u32),
+    Whereis(u32),
+    Registered,
+    Count,
+    Send(PidSel, bool),
+    SendName(u32, bool),
+    Link(PidSel, PidSel),
+    Unlink(PidSel, PidSel),
+    Monitor(PidSel, PidSel),
+    Demonitor(PidSel, PidSel, RefSel),
+}
+
+#[derive(Clone, Debug)]
+enum Step {
+    Op(OpSpec),
+    Yield(u32),
+    /// wait until the task of process `slot` has logged point k (1..3), or 4 = ended
+    WaitPoint(usize, u32),
+    /// wait until process `slot` has handled n messages
+    #[allow(dead_code)]
+    WaitHandled(usize, usize),
+}
+
+fn name_atom(n: u32) -> Atom {
+    Atom::new(format!("n{}", n))
+}
+
+fn resolve_pid(tr: &Trace, s: &PidSel) -> ExternalPid {
+    match s {
+        PidSel::Pick(x) => {
+            if tr.pids.is_empty() { ghost_pid(tr, (*x % 3) as u32) } else { tr.pids[(*x % tr.pids.len() as u64) as usize].clone() }
+        }
+        PidSel::Slot(i) => tr.pids.get(*i).cloned().unwrap_or_else(|| ghost_pid(tr, 7)),
+        PidSel::Ghost(k) => ghost_pid(tr, *k),
+    }
+}
+
+fn resolve_ref(tr: &Trace, s: &RefSel) -> (ExternalReference, String) {
+    match s {
+        RefSel::Pick(x) => {
+            if tr.refs.is_empty() {
+                (ghost_ref(tr, 0), "100".to_string())
+            } else {
+                let i = (*x % tr.refs.len() as u64) as usize;
+                (tr.refs[i].clone(), i.to_string())
+            }
+        }
+        RefSel::Idx(i) => match tr.refs.get(*i) {
+            Some(r) => (r.clone(), i.to_string()),
+            None => (ghost_ref(tr, 1), "101".to_string()),
+        },
+        RefSel::Ghost(k) => (ghost_ref(tr, *k), (100 + k).to_string()),
+    }
+}
+
+fn err_text(e: &Error) -> String {
+    match e {
+        Error::ProcessNotFound(_) => "noproc".into(),
+        Error::MailboxClosed => "closed".into(),
+        Error::NameAlreadyRegistered(_) => "taken".into(),
+        Error::NameNotRegistered(_) => "noname".into(),
+        other => format!("err:{:?}", other).replace(' ', "_"),
+    }
+}
+
+fn unit_text(r: edp_node::Result<()>) -> String {
+    match r {
+        Ok(()) => "ok".into(),
+        Err(e) => err_text(&e),
+    }
+}
+
+/// one call of the real `Node`, from start to end; returns (op text, result text)
+async fn do_op(node: &Node, sh: &Shared, op: &OpSpec) -> (String, String) {
+    match op {
+        OpSpec::Spawn { trap, pre_yield } => {
+            let slot = {
+                let mut tr = sh.lock().unwrap();
+                let s = tr.reserved;
+                tr.reserved += 1;
+                s
+            };
+            let inst = Inst { slot, trap: *trap, pre_yield: *pre_yield, sh: sh.clone() };
+            let r = node.spawn(inst).await;
+            let res = match r {
+                Ok(pid) => {
+                    let mut tr = sh.lock().unwrap();
+                    tr.pids.push(pid);
+                    format!("pid={}", tr.pids.len() - 1)
+                }
+                Err(e) => err_text(&e),
+            };
+            (format!("sp.{}", *trap as u8), res)
+        }
+        OpSpec::Register(n, p) => {
+            let (pid, s) = {
+                let tr = sh.lock().unwrap();
+                let pid = resolve_pid(&tr, p);
+                let s = slot_of(&tr, &pid);
+                (pid, s)
+            };
+            (format!("rg.{}.{}", n, s), unit_text(node.register(name_atom(*n), pid).await))
+        }
+        OpSpec::Unregister(n) => (format!("ur.{}", n), unit_text(node.unregister(&name_atom(*n)).await)),
+        OpSpec::Whereis(n) => {
+            let r = node.whereis(&name_atom(*n)).await;
+            let tr = sh.lock().unwrap();
+            (format!("wh.{}", n), match r { Some(p) => format!("found={}", slot_of(&tr, &p)), None => "found=-".into() })
+        }
+        OpSpec::Registered => {
+            let mut names: Vec<u64> = node
+                .registered()
+                .await
+                .iter()
+                .map(|a| a.as_str().trim_start_matches('n').parse::<u64>().unwrap_or(999_999))
+                .collect();
+            names.sort();
+            ("rd".into(), format!("names={}", names.iter().map(|x| x.to_string()).collect::<Vec<_>>().join(".")))
+        }
+        OpSpec::Count => ("ct".into(), format!("count={}", node.process_count().await)),
+        OpSpec::Send(p, fail) => {
+            let (pid, s, id) = {
+                let mut tr = sh.lock().unwrap();
+                let pid = resolve_pid(&tr, p);
+                let s = slot_of(&tr, &pid);
+                tr.next_msg += 1;
+                (pid, s, tr.next_msg)
+            };
+            let body = OwnedTerm::Tuple(vec![OwnedTerm::Integer(id as i64), OwnedTerm::Atom(Atom::new(if *fail { "crash" } else { "ok" }))]);
+            (format!("sd.{}.{}.{}", s, id, *fail as u8), unit_text(node.send(&pid, body).await))
+        }
+        OpSpec::SendName(n, fail) => {
+            let id = {
+                let mut tr = sh.lock().unwrap();
+                tr.next_msg += 1;
+                tr.next_msg
+            };
+            let body = OwnedTerm::Tuple(vec![OwnedTerm::Integer(id as i64), OwnedTerm::Atom(Atom::new(if *fail { "crash" } else { "ok" }))]);
+            (format!("sn.{}.{}.{}", n, id, *fail as u8), unit_text(node.send_to_name(&name_atom(*n), body).await))
+        }
+        OpSpec::Link(a, b) | OpSpec::Unlink(a, b) => {
+            let (pa, pb, sa, sb) = {
+                let tr = sh.lock().unwrap();
+                let pa = resolve_pid(&tr, a);
+                let pb = resolve_pid(&tr, b);
+                let (sa, sb) = (slot_of(&tr, &pa), slot_of(&tr, &pb));
+                (pa, pb, sa, sb)
+            };
+            if matches!(op, OpSpec::Link(..)) {
+                (format!("lk.{}.{}", sa, sb), unit_text(node.link(&pa, &pb).await))
+            } else {
+                (format!("ul.{}.{}", sa, sb), unit_text(node.unlink(&pa, &pb).await))
+            }
+        }
+        OpSpec::Monitor(a, b) => {
+            let (pa, pb, sa, sb) = {
+                let tr = sh.lock().unwrap();
+                let pa = resolve_pid(&tr, a);
+                let pb = resolve_pid(&tr, b);
+                let (sa, sb) = (slot_of(&tr, &pa), slot_of(&tr, &pb));
+                (pa, pb, sa, sb)
+            };
+            let r = node.monitor(&pa, &pb).await;
+            let res = match r {
+                Ok(reference) => {
+                    let mut tr = sh.lock().unwrap();
+                    tr.refs.push(reference);
+                    format!("ref={}", tr.refs.len() - 1)
+                }
+                Err(e) => err_text(&e),
+            };
+            (format!("mo.{}.{}", sa, sb), res)
+        }
+        OpSpec::Demonitor(a, b, r) => {
+            let (pa, pb, sa, sb, rf, rs) = {
+                let tr = sh.lock().unwrap();
+                let pa = resolve_pid(&tr, a);
+                let pb = resolve_pid(&tr, b);
+                let (sa, sb) = (slot_of(&tr, &pa), slot_of(&tr, &pb));
+                let (rf, rs) = resolve_ref(&tr, r);
+                (pa, pb, sa, sb, rf, rs)
+            };
+            (format!("dm.{}.{}.{}", sa, sb, rs), unit_text(node.demonitor(&pa, &pb, &rf).await))
+        }
+    }
+}
+
+fn point_logged(tr: &Trace, slot: usize, k: u32) -> bool {
+    tr.log.iter().any(|e| match e {
+        Entry::X { p, k: kk } => *p == slot && *kk == k,
+        Entry::D { p } => *p == slot && k == 4,
+        _ => false,
+    })
+}
+
+async fn run_client(node: Arc<Node>, sh: Shared, t: usize, steps: Vec<Step>) {
+    for st in steps {
+        match st {
+            Step::Yield(n) => {
+                for _ in 0..n {
+                    tokio::task::yield_now().await;
+                }
+            }
+            Step::WaitPoint(slot, k) => {
+                for _ in 0..2000 {
+                    if point_logged(&sh.lock().unwrap(), slot, k) {
+                        break;
+                    }
+                    tokio::task::yield_now().await;
+                }
+            }
+            Step::WaitHandled(slot, n) => {
+                for _ in 0..2000 {
+                    let c = sh.lock().unwrap().log.iter().filter(|e| matches!(e, Entry::H { p, .. } if *p == slot)).count();
+                    if c >= n {
+                        break;
+                    }
+                    tokio::task::yield_now().await;
+                }
+            }
+            Step::Op(op) => {
+                let (optext, res) = do_op(&node, &sh, &op).await;
+                sh.lock().unwrap().log.push(Entry::Call { t, op: optext, res });
+            }
+        }
+    }
+}
+
+async fn quiesce(sh: &Shared) {
+    let mut last = usize::MAX;
+    let mut same = 0;
+    for _ in 0..100_000 {
+        tokio::task::yield_now().await;
+        let n = sh.lock().unwrap().log.len();
+        if n == last {
+            same += 1;
+            if same >= 80 {
+                return;
+            }
+        } else {
+            same = 0;
+            last = n;
+        }
+    }
+}
+
+struct Scenario {
+    clients: Vec<Vec<Step>>,
+    hook_max: [u32; 3],
+    hook_fixed: Option<[u32; 3]>,
+    hook_seed: u64,
+    names: u32,
+}
+
+static NODE_SEQ: std::sync::atomic::AtomicU32 = std::sync::atomic::AtomicU32::new(0);
+
+/// runs one scenario against a fresh `Node`; returns the history (final probes included)
+async fn run_scenario(sc: &Scenario) -> Option<(Vec<Entry>, u32)> {
+    let k = NODE_SEQ.fetch_add(1, std::sync::atomic::Ordering::SeqCst);
+    let mut node = Node::new(format!("c18n{}@localhost", k), "cookie");
+    if node.start(0).await.is_err() {
+        return None;
+    }
+    let sh: Shared = Arc::new(Mutex::new(Trace {
+        log: vec![],
+        pids: vec![],
+        reserved: 0,
+        refs: vec![],
+        tasks: HashMap::new(),
+        next_msg: 0,
+        hook_rng: Rng::new(sc.hook_seed),
+        hook_max: sc.hook_max,
+        hook_fixed: sc.hook_fixed,
+        node_name: node.name().clone(),
+        creation: node.creation(),
+        unknown_task_hooks: 0,
+    }));
+    *CURRENT.lock().unwrap() = Some(sh.clone());
+    let node = Arc::new(node);
+    let mut joins = vec![];
+    for (t, steps) in sc.clients.iter().enumerate() {
+        joins.push(tokio::spawn(tokio::task::unconstrained(run_client(node.clone(), sh.clone(), t, steps.clone()))));
+    }
+    for j in joins {
+        let _ = j.await;
+    }
+    quiesce(&sh).await;
+    // final probes: every name, the name list, the count, one more message to every process
+    let mut probes = vec![];
+    for n in 0..sc.names {
+        probes.push(Step::Op(OpSpec::Whereis(n)));
+    }
+    probes.push(Step::Op(OpSpec::Registered));
+    probes.push(Step::Op(OpSpec::Count));
+    let nslots = sh.lock().unwrap().pids.len();
+    for s in 0..nslots {
+        probes.push(Step::Op(OpSpec::Send(PidSel::Slot(s), false)));
+    }
+    for n in 0..sc.names {
+        probes.push(Step::Op(OpSpec::SendName(n, false)));
+    }
+    run_client(node.clone(), sh.clone(), 9, probes).await;
+    quiesce(&sh).await;
+    *CURRENT.lock().unwrap() = None;
+    let tr = sh.lock().unwrap();
+    Some((tr.log.clone(), tr.unknown_task_hooks))
+}
+
+// ------------------------------------------------------------------------------------------------ rendering
+
+fn token(e: &Entry) -> Option<String> {
+    match e {
+        Entry::Call { t, op, .. } => Some(format!("c{}:{}", t, op)),
+        Entry::H { p, .. } => Some(format!("h{}", p)),
+        Entry::X { p, k } => Some(format!("x{}.{}", p, k)),
+        Entry::D { p } => Some(format!("d{}", p)),
+        Entry::Tm { .. } => None,
+    }
+}
+
+fn parse_mon(s: &str) -> Option<(String, u64)> {
+    let rest = s.strip_prefix('m')?;
+    let (q, r) = rest.split_once('.')?;
+    Some((q.to_string(), r.parse().ok()?))
+}
+
+/// per receiver: adjacent MonitorExit notices about one process are sorted by reference (HashSet iteration order)
+fn canonical_handled(log: &[Entry]) -> Vec<Entry> {
+    let mut per: HashMap<usize, Vec<String>> = HashMap::new();
+    for e in log {
+        if let Entry::H { p, msg } = e {
+            per.entry(*p).or_default().push(msg.clone());
+        }
+    }
+    for v in per.values_mut() {
+        let mut i = 0;
+        while i < v.len() {
+            if let Some((q, _)) = parse_mon(&v[i]) {
+                let mut j = i;
+                while j < v.len() && parse_mon(&v[j]).map(|x| x.0 == q).unwrap_or(false) {
+                    j += 1;
+                }
+                let mut refs: Vec<u64> = v[i..j].iter().map(|s| parse_mon(s).unwrap().1).collect();
+                refs.sort();
+                for (o, r) in refs.iter().enumerate() {
+                    v[i + o] = format!("m{}.{}", q, r);
+                }
+                i = j;
+            } else {
+                i += 1;
+            }
+        }
+    }
+    let mut pos: HashMap<usize, usize> = HashMap::new();
+    log.iter()
+        .map(|e| match e {
+            Entry::H { p, .. } => {
+                let k = pos.entry(*p).or_insert(0);
+                let m = per[p][*k].clone();
+                *k += 1;
+                Entry::H { p: *p, msg: m }
+            }
+            other => other.clone(),
+        })
+        .collect()
+}
+
+fn result_item(e: &Entry) -> Option<String> {
+    match e {
+        Entry::Call { res, .. } => Some(res.clone()),
+        Entry::H { msg, .. } => Some(msg.clone()),
+        Entry::X { .. } | Entry::D { .. } => Some(".".into()),
+        Entry::Tm { .. } => None,
+    }
+}
+
+fn spec_token(e: &Entry) -> Option<String> {
+    match e {
+        Entry::Call { t, op, res } => Some(format!("c{}:{}={}", t, op, res)),
+        Entry::H { p, msg } => Some(format!("h{}={}", p, msg)),
+        Entry::X { p, k } => Some(format!("x{}.{}", p, k)),
+        Entry::D { p } => Some(format!("d{}", p)),
+        Entry::Tm { .. } => None,
+    }
+}
+
+/// the order of the termination points of every process, checked on the spot
+fn check_points(ctx: &mut Ctx, log: &[Entry], what: &str) {
+    let mut slots: Vec<usize> = log.iter().filter_map(|e| if let Entry::Tm { p } = e { Some(*p) } else { None }).collect();
+    slots.sort();
+    let had_dups = slots.windows(2).any(|w| w[0] == w[1]);
+    slots.dedup();
+    if had_dups {
+        ctx.fail("c18-terminate-twice", what);
+    }
+    for e in log {
+        if let Entry::X { p, .. } | Entry::D { p } = e {
+            let failed = log.iter().any(|x| matches!(x, Entry::Tm { p: q } if q == p));
+            if !failed {
+                ctx.fail("c18-exit-path-without-terminate", &format!("{} process {}", what, p));
+                return;
+            }
+        }
+    }
+    for p in slots {
+        let idx = |f: &dyn Fn(&Entry) -> bool| log.iter().position(|e| f(e));
+        let tm = idx(&|e| matches!(e, Entry::Tm { p: q } if *q == p));
+        let x1 = idx(&|e| matches!(e, Entry::X { p: q, k: 1 } if *q == p));
+        let x2 = idx(&|e| matches!(e, Entry::X { p: q, k: 2 } if *q == p));
+        let x3 = idx(&|e| matches!(e, Entry::X { p: q, k: 3 } if *q == p));
+        let d = idx(&|e| matches!(e, Entry::D { p: q } if *q == p));
+        let ok = matches!((tm, x1, x2, x3, d), (Some(a), Some(b), Some(c), Some(dd), Some(e)) if a < b && b < c && c < dd && dd < e);
+        if !ok {
+            ctx.fail("c18-termination-steps-out-of-order", &format!("{} process {} points {:?}", what, p, (tm, x1, x2, x3, d)));
+        }
+    }
+}
+
+fn emit(ctx: &mut Ctx, log: &[Entry], what: &str) {
+    let log = canonical_handled(log);
+    let toks: Vec<String> = log.iter().filter_map(token).collect();
+    let res: Vec<String> = log.iter().filter_map(result_item).collect();
+    ctx.tie("run", &format!("c18run 1000 {}", toks.join(" ")), &res.join(";"));
+    let st: Vec<String> = log.iter().filter_map(spec_token).collect();
+    ctx.prop("gen", &format!("c18spec {}", st.join(" ")), "ok");
+    check_points(ctx, &log, what);
+    ctx.count("traces_validated");
+    ctx.add("history_entries", toks.len() as u64);
+    for e in &log {
+        match e {
+            Entry::Call { op, res, .. } => {
+                ctx.count(&format!("op_{}", &op[..2]));
+                if res.starts_with("no") || res == "taken" || res == "closed" {
+                    ctx.count(&format!("res_{}", res));
+                }
+            }
+            Entry::H { msg, .. } => ctx.count(&format!("handled_{}", &msg[..1])),
+            Entry::D { .. } => ctx.count("processes_terminated"),
+            _ => {}
+        }
+    }
+    // how often a client call fell inside a termination window
+    let mut open: Vec<usize> = vec![];
+    for e in &log {
+        match e {
+            Entry::X { p, k: 1 } => open.push(*p),
+            Entry::D { p } => open.retain(|q| q != p),
+            Entry::Call { .. } if !open.is_empty() => ctx.count("calls_during_a_termination"),
+            _ => {}
+        }
+    }
+}
+
+// ------------------------------------------------------------------------------------------------ generators
+
+fn gen_pid(rng: &mut Rng) -> PidSel {
+    if rng.chance(1, 12) { PidSel::Ghost(rng.below(3) as u32) } else { PidSel::Pick(rng.next()) }
+}
+
+fn gen_op(rng: &mut Rng, names: u32) -> OpSpec {
+    let n = rng.below(names as u64) as u32;
+    match rng.below(100) {
+        0..=21 => OpSpec::Send(gen_pid(rng), false),
+        22..=29 => OpSpec::Send(gen_pid(rng), true),
+        30..=38 => OpSpec::SendName(n, rng.chance(1, 5)),
+        39..=50 => OpSpec::Register(n, gen_pid(rng)),
+        51..=56 => OpSpec::Unregister(n),
+        57..=62 => OpSpec::Whereis(n),
+        63..=72 => OpSpec::Link(gen_pid(rng), gen_pid(rng)),
+        73..=76 => OpSpec::Unlink(gen_pid(rng), gen_pid(rng)),
+        77..=85 => OpSpec::Monitor(gen_pid(rng), gen_pid(rng)),
+        86..=89 => OpSpec::Demonitor(gen_pid(rng), gen_pid(rng), if rng.chance(1, 8) { RefSel::Ghost(rng.below(2) as u32) } else { RefSel::Pick(rng.next()) }),
+        90..=94 => OpSpec::Spawn { trap: rng.chance(2, 3), pre_yield: 1 + rng.below(3) as u32 },
+        95..=96 => OpSpec::Registered,
+        _ => OpSpec::Count,
+    }
+}
+
+fn gen_scenario(rng: &mut Rng, max_ops: usize) -> Scenario {
+    let names = 1 + rng.below(3) as u32;
+    let nclients = 1 + rng.below(3) as usize;
+    let nprocs = 2 + rng.below(3) as usize;
+    let total = 4 + rng.below(max_ops as u64 - 3) as usize;
+    let mut clients: Vec<Vec<Step>> = vec![vec![]; nclients];
+    // sometimes calls are made before anything exists
+    if rng.chance(1, 4) {
+        clients[0].push(Step::Op(gen_op(rng, names)));
+    }
+    for _ in 0..nprocs {
+        clients[0].push(Step::Op(OpSpec::Spawn { trap: rng.chance(2, 3), pre_yield: 1 + rng.below(3) as u32 }));
+    }
+    for c in clients.iter_mut().skip(1) {
+        c.push(Step::Yield(1 + rng.below(2) as u32));
+    }
+    let heavy_links = rng.chance(1, 3);
+    for _ in 0..total {
+        let c = rng.below(nclients as u64) as usize;
+        let op = if heavy_links && rng.chance(1, 3) {
+            if rng.chance(1, 2) { OpSpec::Link(gen_pid(rng), gen_pid(rng)) } else { OpSpec::Monitor(gen_pid(rng), gen_pid(rng)) }
+        } else {
+            gen_op(rng, names)
+        };
+        clients[c].push(Step::Op(op));
+        let y = match rng.below(4) { 0 => 0, 1 => 1, 2 => 2, _ => rng.below(6) as u32 };
+        if y > 0 {
+            clients[c].push(Step::Yield(y));
+        }
+    }
+    let style = rng.below(4);
+    let hook_max = match style { 0 => [0, 0, 0], 1 => [2, 2, 2], 2 => [6, 6, 6], _ => [rng.below(8) as u32, rng.below(8) as u32, rng.below(8) as u32] };
+    Scenario { clients, hook_max, hook_fixed: None, hook_seed: rng.next(), names }
+}
+
+fn sp(trap: bool) -> Step {
+    Step::Op(OpSpec::Spawn { trap, pre_yield: 1 })
+}
+fn s(i: usize) -> PidSel {
+    PidSel::Slot(i)
+}
+
+/// directed scenarios; each forces one interleaving through the hook points
+fn directed() -> Vec<(&'static str, Scenario)> {
+    let fixed = |clients: Vec<Vec<Step>>, hooks: [u32; 3]| Scenario { clients, hook_max: [0, 0, 0], hook_fixed: Some(hooks), hook_seed: 1, names: 3 };
+    vec![
+        // a name registered for a process that is past its loop but still in the registry is released with it
+        ("register-during-termination", fixed(vec![vec![
+            sp(true), sp(true),
+            Step::Op(OpSpec::Register(0, s(1))),
+            Step::Op(OpSpec::Send(s(1), true)),
+            Step::WaitPoint(1, 3),
+            Step::Op(OpSpec::Register(1, s(1))),
+            Step::Op(OpSpec::Whereis(1)),
+            Step::WaitPoint(1, 4),
+            Step::Op(OpSpec::Whereis(0)), Step::Op(OpSpec::Whereis(1)),
+            Step::Op(OpSpec::Register(0, s(0))), Step::Op(OpSpec::Register(1, s(0))),
+        ]], [0, 0, 30])),
+        // a name cannot be registered for a process that is gone or never existed
+        ("register-dead-pid", fixed(vec![vec![
+            sp(true), sp(true),
+            Step::Op(OpSpec::Register(2, PidSel::Ghost(1))),
+            Step::Op(OpSpec::Send(s(1), true)),
+            Step::WaitPoint(1, 4),
+            Step::Op(OpSpec::Register(0, s(1))),
+            Step::Op(OpSpec::Whereis(0)), Step::Op(OpSpec::Whereis(2)),
+            Step::Op(OpSpec::Register(0, s(0))),
+            Step::Op(OpSpec::Send(s(1), false)), Step::Op(OpSpec::SendName(0, false)),
+        ]], [0, 0, 0])),
+        // messages accepted between the end of the loop and the removal are never handled
+        ("send-during-termination", fixed(vec![vec![
+            sp(true), sp(true),
+            Step::Op(OpSpec::Register(0, s(1))),
+            Step::Op(OpSpec::Send(s(1), false)), Step::Op(OpSpec::Send(s(1), true)), Step::Op(OpSpec::Send(s(1), false)),
+            Step::WaitPoint(1, 1),
+            Step::Op(OpSpec::Send(s(1), false)), Step::Op(OpSpec::SendName(0, false)),
+            Step::WaitPoint(1, 2),
+            Step::Op(OpSpec::Send(s(1), false)),
+            Step::WaitPoint(1, 3),
+            Step::Op(OpSpec::SendName(0, false)),
+            Step::WaitPoint(1, 4),
+            Step::Op(OpSpec::Send(s(1), false)), Step::Op(OpSpec::SendName(0, false)),
+        ]], [20, 20, 20])),
+        // exit signals cascade through non-trapping processes; monitors of each are told
+        ("cascade", fixed(vec![vec![
+            sp(true), sp(false), sp(false), sp(true),
+            Step::Op(OpSpec::Link(s(1), s(2))), Step::Op(OpSpec::Link(s(2), s(3))), Step::Op(OpSpec::Link(s(0), s(1))),
+            Step::Op(OpSpec::Monitor(s(0), s(1))), Step::Op(OpSpec::Monitor(s(0), s(2))), Step::Op(OpSpec::Monitor(s(3), s(2))),
+            Step::Op(OpSpec::Monitor(s(0), s(2))),
+            Step::Op(OpSpec::Register(0, s(2))),
+            Step::Op(OpSpec::Send(s(1), true)),
+            Step::WaitPoint(2, 4),
+            Step::Op(OpSpec::Register(0, s(3))),
+        ]], [1, 2, 1])),
+        // unlink / demonitor before the snapshot: no notice; link from both sides: one notice
+        ("unlink-demonitor", fixed(vec![vec![
+            sp(true), sp(true), sp(true),
+            Step::Op(OpSpec::Link(s(0), s(1))), Step::Op(OpSpec::Link(s(1), s(0))), Step::Op(OpSpec::Link(s(2), s(1))),
+            Step::Op(OpSpec::Unlink(s(1), s(2))),
+            Step::Op(OpSpec::Monitor(s(0), s(1))), Step::Op(OpSpec::Monitor(s(2), s(1))), Step::Op(OpSpec::Monitor(s(2), s(1))),
+            Step::Op(OpSpec::Demonitor(s(2), s(1), RefSel::Idx(1))),
+            Step::Op(OpSpec::Link(s(1), s(1))),
+            Step::Op(OpSpec::Send(s(1), true)),
+        ]], [0, 3, 0])),
+        // two clients race for one name while its owner dies
+        ("name-race", Scenario { clients: vec![
+            vec![sp(true), sp(true), sp(true), Step::Op(OpSpec::Register(0, s(0))), Step::Op(OpSpec::Send(s(0), true)),
+                 Step::Yield(1), Step::Op(OpSpec::Register(0, s(1))), Step::Yield(2), Step::Op(OpSpec::Register(0, s(1))), Step::WaitPoint(0, 4), Step::Op(OpSpec::Register(0, s(1)))],
+            vec![Step::Yield(2), Step::Op(OpSpec::Register(0, s(2))), Step::Yield(1), Step::Op(OpSpec::Register(0, s(2))), Step::Yield(3), Step::Op(OpSpec::Register(0, s(2))),
+                 Step::Op(OpSpec::Whereis(0)), Step::WaitPoint(0, 4), Step::Op(OpSpec::Register(0, s(2))), Step::Op(OpSpec::Whereis(0))],
+        ], hook_max: [0, 0, 0], hook_fixed: Some([2, 2, 2]), hook_seed: 1, names: 1 }),
+    ]
+}
+
+/// the known findings: a link / monitor accepted after the process collected its links / monitors
+fn late_link() -> Scenario {
+    Scenario { clients: vec![vec![
+        sp(true), sp(true),
+        Step::Op(OpSpec::Send(s(1), true)),
+        Step::WaitPoint(1, 2),
+        Step::Op(OpSpec::Link(s(0), s(1))),
+        Step::Op(OpSpec::Whereis(0)),
+    ]], hook_max: [0, 0, 0], hook_fixed: Some([0, 30, 0]), hook_seed: 1, names: 1 }
+}
+fn late_monitor() -> Scenario {
+    Scenario { clients: vec![vec![
+        sp(true), sp(true),
+        Step::Op(OpSpec::Send(s(1), true)),
+        Step::WaitPoint(1, 3),
+        Step::Op(OpSpec::Monitor(s(0), s(1))),
+        Step::Op(OpSpec::Whereis(0)),
+    ]], hook_max: [0, 0, 0], hook_fixed: Some([0, 0, 30]), hook_seed: 1, names: 1 }
+}
+
+// ------------------------------------------------------------------------------------------------ ProcessRegistry directly
+
+async fn registry_direct(ctx: &mut Ctx) {
+    let node = Atom::new("c18reg@localhost");
+    let cases = ctx.n(400, 4000);
+    for _ in 0..cases {
+        let reg = ProcessRegistry::new();
+        let npids = 1 + ctx.rng.below(4);
+        let nnames = 1 + ctx.rng.below(3);
+        let len = 1 + ctx.rng.below(24);
+        let mut ops = vec![];
+        let mut res = vec![];
+        let mut boxes: Vec<Mailbox> = vec![];
+        for _ in 0..len {
+            let p = ctx.rng.below(npids);
+            let n = ctx.rng.below(nnames);
+            let pid = ExternalPid::new(node.clone(), 10 + p as u32, 0, 1);
+            let name = Atom::new(format!("n{}", n));
+            match ctx.rng.below(16) {
+                0..=3 => {
+                    let mb = Mailbox::with_capacity(4);
+                    reg.insert(pid.clone(), ProcessHandle::new(pid.clone(), mb.sender())).await;
+                    boxes.push(mb);
+                    ops.push(format!("in.{}", p));
+                    res.push("ok".to_string());
+                }
+                4..=5 => {
+                    let r = reg.remove(&pid).await;
+                    ops.push(format!("rm.{}", p));
+                    res.push(match r { Some(h) if h.pid == pid => "some".into(), Some(_) => "some-other".into(), None => "none".into() });
+                }
+                6 => {
+                    let r = reg.get(&pid).await;
+                    ops.push(format!("gt.{}", p));
+                    res.push(match r { Some(h) if h.pid == pid => "some".into(), Some(_) => "some-other".into(), None => "none".into() });
+                }
+                7..=10 => {
+                    ops.push(format!("rg.{}.{}", n, p));
+                    res.push(unit_text(reg.register(name, pid).await));
+                }
+                11 => {
+                    ops.push(format!("ur.{}", n));
+                    res.push(unit_text(reg.unregister(&name).await));
+                }
+                12..=13 => {
+                    let r = reg.whereis(&name).await;
+                    ops.push(format!("wh.{}", n));
+                    res.push(match r { Some(q) if q.id >= 10 => format!("found={}", q.id - 10), Some(_) => "found=?".into(), None => "found=-".into() });
+                }
+                14 => {
+                    let mut names: Vec<u64> = reg.registered().await.iter().map(|a| a.as_str()[1..].parse().unwrap_or(999)).collect();
+                    names.sort();
+                    ops.push("rd".into());
+                    res.push(format!("names={}", names.iter().map(|x| x.to_string()).collect::<Vec<_>>().join(".")));
+                }
+                _ => {
+                    ops.push("ct".into());
+                    res.push(format!("count={}", reg.count().await));
+                }
+            }
+        }
+        ctx.tie("reg", &format!("c18reg {}", ops.join(" ")), &res.join(";"));
+        ctx.count("registry_direct_cases");
+    }
+}
+
+// ------------------------------------------------------------------------------------------------ behaviours
+
+#[derive(Clone)]
+enum GsMode {
+    Reply(OwnedTerm),
+    NoReply,
+    Fail,
+}
+
+struct RecServer {
+    mode: GsMode,
+    seen: Arc<Mutex<Vec<String>>>,
+}
+
+impl GenServer for RecServer {
+    async fn init(&mut self, _args: Vec<OwnedTerm>) -> edp_node::Result<()> {
+        Ok(())
+    }
+    async fn handle_call(&mut self, msg: OwnedTerm, from: ExternalPid) -> edp_node::Result<CallResult> {
+        self.seen.lock().unwrap().push(format!("call:{}:{}", pid_text(&from), term_text(&msg)));
+        match &self.mode {
+            GsMode::Reply(v) => Ok(CallResult::Reply(v.clone())),
+            GsMode::NoReply => Ok(CallResult::NoReply),
+            GsMode::Fail => Err(Error::InvalidMessage("x".into())),
+        }
+    }
+    async fn handle_cast(&mut self, msg: OwnedTerm) -> edp_node::Result<()> {
+        self.seen.lock().unwrap().push(format!("cast:{}", term_text(&msg)));
+        Ok(())
+    }
+    async fn handle_info(&mut self, msg: OwnedTerm) -> edp_node::Result<()> {
+        self.seen.lock().unwrap().push(format!("info:{}", term_text(&msg)));
+        Ok(())
+    }
+}
+
+fn atom(s: &str) -> OwnedTerm {
+    OwnedTerm::Atom(Atom::new(s))
+}
+
+/// message bodies around the `$gen_*` shapes: the well-formed ones and their near misses
+fn gen_body(rng: &mut Rng, tags: &[&str], pids: &[ExternalPid], node: &Atom) -> OwnedTerm {
+    let for_event = tags.contains(&"$gen_notify");
+    let small = |rng: &mut Rng| -> OwnedTerm {
+        match rng.below(6) {
+            0 => atom("get"),
+            1 => OwnedTerm::Integer(rng.below(1000) as i64 - 500),
+            2 => OwnedTerm::Tuple(vec![atom("add"), OwnedTerm::Integer(rng.below(9) as i64)]),
+            3 => OwnedTerm::List(vec![]),
+            4 => OwnedTerm::Binary(rng.bytes(2)),
+            _ => atom("h1"),
+        }
+    };
+    let hid = |rng: &mut Rng| -> OwnedTerm {
+        match rng.below(8) {
+            0..=2 => atom("h1"),
+            3..=5 => atom("h2"),
+            6 => atom("h3"),
+            _ => OwnedTerm::Binary(b"h1".to_vec()),
+        }
+    };
+    let reference = OwnedTerm::Reference(ExternalReference::new(node.clone(), 1, vec![rng.below(50) as u32, 2, 3]));
+    let good_from = |rng: &mut Rng| OwnedTerm::Tuple(vec![OwnedTerm::Pid(rng.pick(pids).clone()), reference.clone()]);
+    let bad_from = |rng: &mut Rng| -> OwnedTerm {
+        match rng.below(6) {
+            0 => OwnedTerm::Tuple(vec![OwnedTerm::Pid(rng.pick(pids).clone())]),
+            1 => OwnedTerm::Tuple(vec![reference.clone(), OwnedTerm::Pid(rng.pick(pids).clone())]),
+            2 => OwnedTerm::Tuple(vec![OwnedTerm::Pid(rng.pick(pids).clone()), atom("notref")]),
+            3 => OwnedTerm::List(vec![OwnedTerm::Pid(rng.pick(pids).clone()), reference.clone()]),
+            4 => OwnedTerm::Tuple(vec![OwnedTerm::Pid(rng.pick(pids).clone()), reference.clone(), atom("x")]),
+            _ => atom("nobody"),
+        }
+    };
+    let call = atom("$gen_call");
+    match rng.below(100) {
+        // well-formed calls of the behaviour under test
+        0..=27 => {
+            if for_event { OwnedTerm::Tuple(vec![call, good_from(rng), hid(rng), small(rng)]) } else { OwnedTerm::Tuple(vec![call, good_from(rng), small(rng)]) }
+        }
+        // calls with a malformed `from`
+        28..=37 => {
+            if for_event { OwnedTerm::Tuple(vec![call, bad_from(rng), hid(rng), small(rng)]) } else { OwnedTerm::Tuple(vec![call, bad_from(rng), small(rng)]) }
+        }
+        // calls of the wrong arity (the other behaviour's shape, too short, too long)
+        38..=45 => match rng.below(4) {
+            0 => OwnedTerm::Tuple(vec![call, good_from(rng)]),
+            1 => OwnedTerm::Tuple(vec![call, good_from(rng), hid(rng), small(rng), small(rng)]),
+            2 if for_event => OwnedTerm::Tuple(vec![call, good_from(rng), small(rng)]),
+            2 => OwnedTerm::Tuple(vec![call, good_from(rng), hid(rng), small(rng)]),
+            _ => OwnedTerm::Tuple(vec![call]),
+        },
+        // the one-argument shapes: cast / notify / sync_notify, well-formed and with an extra element
+        46..=59 => OwnedTerm::Tuple(vec![atom(*rng.pick(tags)), small(rng)]),
+        60..=64 => OwnedTerm::Tuple(vec![atom(*rng.pick(tags)), small(rng), small(rng)]),
+        // which_handlers
+        65..=70 => OwnedTerm::Tuple(vec![atom("$gen_which_handlers"), good_from(rng)]),
+        71..=73 => OwnedTerm::Tuple(vec![atom("$gen_which_handlers"), bad_from(rng)]),
+        // the tag is not the first element / not an atom / unknown
+        74..=78 => OwnedTerm::Tuple(vec![atom("other"), good_from(rng), small(rng)]),
+        79..=81 => OwnedTerm::Tuple(vec![OwnedTerm::Binary(b"$gen_call".to_vec()), good_from(rng), small(rng)]),
+        82..=84 => OwnedTerm::List(vec![atom(*rng.pick(tags)), good_from(rng), small(rng)]),
+        85..=87 => OwnedTerm::Tuple(vec![good_from(rng), atom(*rng.pick(tags)), small(rng)]),
+        // plain messages
+        _ => small(rng),
+    }
+}
+
+fn drain(mb: &mut Mailbox) -> Vec<String> {
+    let mut out = vec![];
+    while let Ok(m) = mb.try_recv() {
+        out.push(match m {
+            Message::Regular { from: None, body } => term_text(&body),
+            other => format!("?{:?}", other).replace(' ', ""),
+        });
+    }
+    out
+}
+
+async fn gen_server_direct(ctx: &mut Ctx) {
+    let node = Atom::new("c18gs@localhost");
+    let live = ExternalPid::new(node.clone(), 1, 0, 1);
+    let absent = ExternalPid::new(node.clone(), 2, 0, 1);
+    let remote = ExternalPid::new(Atom::new("other@host"), 1, 0, 1);
+    let pids = vec![live.clone(), live.clone(), absent, remote];
+    let cases = ctx.n(800, 8000);
+    for _ in 0..cases {
+        let registry = Arc::new(ProcessRegistry::new());
+        let mut caller_box = Mailbox::with_capacity(16);
+        registry.insert(live.clone(), ProcessHandle::new(live.clone(), caller_box.sender())).await;
+        let mode = match ctx.rng.below(5) {
+            0 => GsMode::NoReply,
+            1 => GsMode::Fail,
+            _ => GsMode::Reply(OwnedTerm::Integer(ctx.rng.below(100) as i64)),
+        };
+        let seen = Arc::new(Mutex::new(vec![]));
+        let mut proc_ = GenServerProcess::new(RecServer { mode: mode.clone(), seen: seen.clone() }, registry.clone());
+        let body = gen_body(&mut ctx.rng, &["$gen_call", "$gen_call", "$gen_cast"], &pids, &node);
+        let r = proc_.handle_message(Message::Regular { from: None, body: body.clone() }).await;
+        let seen = seen.lock().unwrap().clone();
+        let replies = drain(&mut caller_box);
+        let mode_text = match &mode { GsMode::Reply(v) => format!("r:{}", term_text(v)), GsMode::NoReply => "n".into(), GsMode::Fail => "e".into() };
+        // the callback's view of the call has no reference; put the model's text together from both observations
+        let act = if seen.len() == 1 { seen[0].clone() } else { format!("callbacks={}", seen.len()) };
+        ctx.count(&format!("gs_{}", act.split(':').next().unwrap_or("?")));
+        let act_full = if act.starts_with("call:") {
+            // call:<from>:<req>  ->  call:<from>:<ref>:<req> with the reference taken from the message
+            let parts: Vec<&str> = act.splitn(3, ':').collect();
+            let reference = match &body { OwnedTerm::Tuple(v) => match &v[1] { OwnedTerm::Tuple(f) => term_text(&f[1]), _ => "?".into() }, _ => "?".into() };
+            format!("call:{}:{}:{}", parts[1], reference, parts[2])
+        } else {
+            act.clone()
+        };
+        ctx.tie("gs", &format!("c18gs {} {} {}", term_text(&body), mode_text, term_text(&OwnedTerm::Pid(live.clone()))),
+            &format!("{};{}", act_full, if replies.is_empty() { "-".to_string() } else { replies.join(",") }));
+        // Spec oracle: a well-formed call the server replies to is answered exactly once, `{Ref, Reply}`, to a live caller
+        ctx.prop("gen", &format!("c18gsspec {} {} {} {}", term_text(&body), mode_text, term_text(&OwnedTerm::Pid(live.clone())),
+            if replies.is_empty() { "-".to_string() } else { replies.join(";") }), "ok");
+        if replies.len() > 1 {
+            ctx.fail("c18-call-answered-twice", &format!("body={} replies={:?}", term_text(&body), replies));
+        }
+        let is_fail_on_call = act.starts_with("call:") && matches!(mode, GsMode::Fail);
+        if r.is_err() != is_fail_on_call {
+            ctx.fail("c18-gs-handler-result", &format!("body={} result_err={}", term_text(&body), r.is_err()));
+        }
+    }
+}
+
+struct RecHandler {
+    id: &'static str,
+    kind: u8, // 0: reply echo, 1: remove with reply, 2: fail
+    seen: Arc<Mutex<Vec<String>>>,
+}
+
+impl GenEventHandler for RecHandler {
+    fn init<'a>(&'a mut self, _args: OwnedTerm) -> Pin<Box<dyn Future<Output = edp_node::Result<()>> + Send + 'a>> {
+        Box::pin(async move { Ok(()) })
+    }
+    fn handle_event<'a>(&'a mut self, event: OwnedTerm) -> Pin<Box<dyn Future<Output = edp_node::Result<EventResult>> + Send + 'a>> {
+        self.seen.lock().unwrap().push(format!("event:{}:{}", term_text(&atom(self.id)), term_text(&event)));
+        Box::pin(async move { Ok(EventResult::Ok) })
+    }
+    fn handle_call<'a>(&'a mut self, request: OwnedTerm) -> Pin<Box<dyn Future<Output = edp_node::Result<GeCallResult>> + Send + 'a>> {
+        self.seen.lock().unwrap().push(format!("call:{}:{}", term_text(&atom(self.id)), term_text(&request)));
+        let kind = self.kind;
+        Box::pin(async move {
+            match kind {
+                0 => Ok(GeCallResult::Reply(OwnedTerm::Tuple(vec![atom("echo"), request]))),
+                1 => Ok(GeCallResult::Remove(OwnedTerm::Tuple(vec![atom("bye"), request]))),
+                _ => Err(Error::InvalidMessage("x".into())),
+            }
+        })
+    }
+    fn handle_info<'a>(&'a mut self, msg: OwnedTerm) -> Pin<Box<dyn Future<Output = edp_node::Result<EventResult>> + Send + 'a>> {
+        self.seen.lock().unwrap().push(format!("info:{}:{}", term_text(&atom(self.id)), term_text(&msg)));
+        Box::pin(async move { Ok(EventResult::Ok) })
+    }
+    fn id(&self) -> OwnedTerm {
+        atom(self.id)
+    }
+}
+
+async fn gen_event_direct(ctx: &mut Ctx) {
+    let node = Atom::new("c18ge@localhost");
+    let live = ExternalPid::new(node.clone(), 1, 0, 1);
+    let absent = ExternalPid::new(node.clone(), 2, 0, 1);
+    let pids = vec![live.clone(), live.clone(), live.clone(), absent.clone()];
+    let cases = ctx.n(800, 8000);
+    for _ in 0..cases {
+        let registry = Arc::new(ProcessRegistry::new());
+        let mut caller_box = Mailbox::with_capacity(16);
+        registry.insert(live.clone(), ProcessHandle::new(live.clone(), caller_box.sender())).await;
+        let mut mgr = GenEventManager::new(registry.clone());
+        let seen = Arc::new(Mutex::new(vec![]));
+        let nh = ctx.rng.below(3) as usize;
+        let kinds: Vec<u8> = (0..nh).map(|_| ctx.rng.below(3) as u8).collect();
+        let ids = ["h1", "h2"];
+        for i in 0..nh {
+            let _ = mgr.add_handler(Box::new(RecHandler { id: ids[i], kind: kinds[i], seen: seen.clone() }), atom("args")).await;
+        }
+        let body = gen_body(&mut ctx.rng, &["$gen_call", "$gen_call", "$gen_notify", "$gen_sync_notify", "$gen_which_handlers"], &pids, &node);
+        let from = match ctx.rng.below(3) { 0 => None, 1 => Some(live.clone()), _ => Some(absent.clone()) };
+        let r = mgr.handle_message(Message::Regular { from: from.clone(), body: body.clone() }).await;
+        let mut seen = seen.lock().unwrap().clone();
+        seen.sort();
+        let replies = drain(&mut caller_box);
+        // what the model needs to know about the handlers: the reply `call_handler` gives for the addressed handler, the ids
+        let call_reply = match &body {
+            OwnedTerm::Tuple(v) if v.len() == 4 && v[0] == atom("$gen_call") => {
+                let hid = &v[2];
+                let idx = (0..nh).find(|i| &atom(ids[*i]) == hid);
+                match idx {
+                    Some(i) if kinds[i] == 0 => Some(OwnedTerm::Tuple(vec![atom("echo"), v[3].clone()])),
+                    Some(i) if kinds[i] == 1 => Some(OwnedTerm::Tuple(vec![atom("bye"), v[3].clone()])),
+                    _ => None,
+                }
+            }
+            _ => None,
+        };
+        // `which_handlers` lists the ids in HashMap order: compare as a sorted list on both sides
+        let mut id_terms: Vec<String> = (0..nh).map(|i| term_text(&atom(ids[i]))).collect();
+        id_terms.sort();
+        let replies_canon: Vec<String> = replies.iter().map(|s| if nh == 2 { s.replace(&format!("L[{},{}]", id_terms[1], id_terms[0]), &format!("L[{},{}]", id_terms[0], id_terms[1])) } else { s.clone() }).collect();
+        let kind_of = |s: &str| s.split(':').next().unwrap_or("?").to_string();
+        let act = if seen.is_empty() { "none".to_string() } else { kind_of(&seen[0]) };
+        ctx.count(&format!("ge_{}_{}", act, nh));
+        ctx.tie("ge", &format!("c18ge {} {} {} {} {}",
+                from.as_ref().map(|p| term_text(&OwnedTerm::Pid(p.clone()))).unwrap_or("-".into()),
+                term_text(&body),
+                call_reply.as_ref().map(term_text).unwrap_or("-".into()),
+                if id_terms.is_empty() { "-".to_string() } else { id_terms.join(";") },
+                term_text(&OwnedTerm::Pid(live.clone()))),
+            &format!("{};{}", if seen.is_empty() { "-".to_string() } else { seen.join(",") }, if replies_canon.is_empty() { "-".to_string() } else { replies_canon.join(",") }));
+        ctx.prop("gen", &format!("c18gespec {} {} {} {} {} {}",
+                from.as_ref().map(|p| term_text(&OwnedTerm::Pid(p.clone()))).unwrap_or("-".into()),
+                term_text(&body),
+                call_reply.as_ref().map(term_text).unwrap_or("-".into()),
+                if id_terms.is_empty() { "-".to_string() } else { id_terms.join(";") },
+                term_text(&OwnedTerm::Pid(live.clone())),
+                if replies_canon.is_empty() { "-".to_string() } else { replies_canon.join(";") }), "ok");
+        if replies.len() > 1 {
+            ctx.fail("c18-call-answered-twice", &format!("gen_event body={} replies={:?}", term_text(&body), replies));
+        }
+        if r.is_err() {
+            ctx.fail("c18-ge-handler-result", &format!("body={}", term_text(&body)));
+        }
+    }
+}
+
+// ------------------------------------------------------------------------------------------------ entry
+
+pub fn run(ctx: &mut Ctx) {
+    let rt = tokio::runtime::Builder::new_current_thread().enable_all().build().unwrap();
+    rt.block_on(async {
+        let _epmd = FakeEpmd::start().await;
+        install_hook();
+
+        // directed interleavings
+        for (name, sc) in directed() {
+            match run_scenario(&sc).await {
+                Some((log, unknown)) => {
+                    if unknown > 0 {
+                        ctx.fail("c18-hook-from-unknown-task", name);
+                    }
+                    emit(ctx, &log, name);
+                    ctx.count("directed_scenarios");
+                }
+                None => ctx.fail("c18-node-start-failed", name),
+            }
+        }
+
+        // known findings, replayed against the real code on every run
+        for (class, sc, what) in [("kf-c18-late-link", late_link(), "late-link"), ("kf-c18-late-monitor", late_monitor(), "late-monitor")] {
+            match run_scenario(&sc).await {
+                Some((log, _)) => {
+                    emit(ctx, &log, what);
+                    let log = canonical_handled(&log);
+                    let st: Vec<String> = log.iter().filter_map(spec_token).collect();
+                    // the interleaving must really have been forced, otherwise the witness shows nothing
+                    let pos = |f: &dyn Fn(&Entry) -> bool| log.iter().position(|e| f(e));
+                    let call = pos(&|e| matches!(e, Entry::Call { op, .. } if op.starts_with("lk.") || op.starts_with("mo.")));
+                    let k = if class == "kf-c18-late-link" { 2 } else { 3 };
+                    let after = pos(&|e| matches!(e, Entry::X { p: 1, k: kk } if *kk == k));
+                    let gone = pos(&|e| matches!(e, Entry::D { p: 1 }));
+                    if matches!((after, call, gone), (Some(a), Some(c), Some(g)) if a < c && c < g) {
+                        ctx.prop(class, &format!("c18specfull {}", st.join(" ")), "ok");
+                    } else {
+                        ctx.fail("c18-witness-interleaving-not-forced", what);
+                    }
+                }
+                None => ctx.fail("c18-node-start-failed", what),
+            }
+        }
+
+        // seeded histories
+        let traces = ctx.n(1500, 25000);
+        let max_ops = 30;
+        for i in 0..traces {
+            let mut r = Rng::new(ctx.rng.next());
+            let sc = gen_scenario(&mut r, max_ops);
+            ctx.count(&format!("clients_{}", sc.clients.len()));
+            match run_scenario(&sc).await {
+                Some((log, unknown)) => {
+                    if unknown > 0 {
+                        ctx.fail("c18-hook-from-unknown-task", &format!("trace {}", i));
+                    }
+                    emit(ctx, &log, &format!("trace {}", i));
+                }
+                None => ctx.fail("c18-node-start-failed", &format!("trace {}", i)),
+            }
+        }
+
+        registry_direct(ctx).await;
+        gen_server_direct(ctx).await;
+        gen_event_direct(ctx).await;
+        edp_client::verif_hooks::set_yield_hook(None);
+    });
+}
